@@ -389,6 +389,10 @@ class ColFolder(Folder):
         return super().e_Name(n, env)
 
 
+class InputTruncated(Exception):
+    """The map converts its not yet rounded input to an integer-typed point."""
+
+
 def eval_map(ctx, func, d, T_i):
     """Symbolically evaluate CoordinateSystem.<func> for dimension d on a batch whose columns are IN0..IN{d-1}."""
     m = ctx.model
@@ -399,7 +403,13 @@ def eval_map(ctx, func, d, T_i):
         def e_Call(self, n, env):
             t = m.resolve_call(n, func)
             if t in makers and n.args:
-                return self.ev(n.args[0], env)
+                v_ = self.ev(n.args[0], env)
+                if t.name == "make_voxel" and isinstance(v_, Cols) and any(isinstance(c_, Poly) and any(str(a_).startswith("IN") for a_ in c_.atoms()) for c_ in v_.cols):
+                    # the typed voxel classes hold integers: a position that has not been floored / rounded yet is truncated by the conversion
+                    raise InputTruncated(norm(n))
+                return v_
+            if isinstance(n.func, ast.Attribute) and n.func.attr in ("ndarray",):
+                raise Refuse("ndarray call")
             if isinstance(n.func, ast.Attribute) and n.func.attr in ("ndarray",):
                 raise Refuse("ndarray call")
             return super().e_Call(n, env)
@@ -407,6 +417,8 @@ def eval_map(ctx, func, d, T_i):
         def e_Attribute(self, n, env):
             if isinstance(n.value, ast.Name) and n.value.id == "np" and n.attr == "ndarray":
                 return TypeTag("np.ndarray")
+            if isinstance(n.value, ast.Name) and n.value.id == "darsia" and "darsia" not in env and n.attr[:1].isupper():
+                return TypeTag(f"darsia.{n.attr}")   # a point class used in an isinstance test: the symbolic batch is a plain array, no typed point
             return super().e_Attribute(n, env)
 
     def resolver(call):
@@ -484,6 +496,11 @@ def rule_b(ctx):
                 v = eval_map(ctx, f, d, T_i)
             except Raised as e:
                 ctx.ob(R, f.qname, f"dim {d}: evaluates", False, f"raises {e.name}", f.node)
+                v = None
+            except InputTruncated as e:
+                ctx.ob(R, f.qname, f"dim {d}: the map acts on the position it is given", False,
+                       f"`{e}` converts the incoming position to an integer-typed voxel before the map is applied: fractional positions (voxel centres i + 1/2, points inside a voxel) "
+                       "collapse onto the voxel corner, so the centre is no longer half a voxel size from the corner and does not convert back to its voxel", f.node, evidence=True)
                 v = None
             except Refuse as e:
                 raise AnalysisError(f"{f.qname} (dim {d}) outside the column-folding language: {e}")
@@ -1072,15 +1089,15 @@ def rule_e(ctx):
 
 
 def run(ctx):
-    rule_a(ctx)
-    rule_b(ctx)
-    rule_c(ctx)
-    rule_d(ctx)
-    rule_e(ctx)
-    rule_f(ctx)
+    ctx.guard(rule_a, ctx)
+    ctx.guard(rule_b, ctx)
+    ctx.guard(rule_c, ctx)
+    ctx.guard(rule_d, ctx)
+    ctx.guard(rule_e, ctx)
+    ctx.guard(rule_f, ctx)
     from .common import rule_extent_keywords
 
-    rule_extent_keywords(ctx, "C01.g")
+    ctx.guard(rule_extent_keywords, ctx, "C01.g")
     # the orientation of the axes is written down twice in the repository (interpret_indexing, and the flips / transposes of the
     # array-layout helpers); C01.a shows the table is self-consistent, the shared rule that the two statements of the convention agree
     from . import c20
